@@ -7,7 +7,7 @@ CONSTANTS
   Mode = "fetcher"
   MaxR = 3
   MaxExtra = 1
-  MaxReady = 1
+  MaxReady = 0
   MaxResults = 9
   DegenerateRanges = FALSE
   EmitCases = FALSE
